@@ -473,6 +473,85 @@ theorem hydro_sum (g : Grid) (f : Nat) (a : Rat) (G : V3) (p : Nat → Rat)
     rw [this, hp h.cell]
     linear_combination ih'
 
+/-! ### decidable grid-level predicates -/
+
+theorem wellFormedB_iff (g : Grid) : wellFormedB g = true ↔ WellFormed g := by
+  simp [wellFormedB, WellFormed, List.all_eq_true]
+
+/-- a vector parallel to `d ≠ 0` is the multiple `(d.v / d.d) d` -/
+theorem parallel_eq (v d : V3) (hc : v.cross d = ⟨0, 0, 0⟩) (hd : d.dot d ≠ 0) :
+    v = V3.smul (d.dot v / d.dot d) d := by
+  obtain ⟨vx, vy, vz⟩ := v
+  obtain ⟨dx, dy, dz⟩ := d
+  simp only [V3.cross, V3.mk.injEq] at hc
+  obtain ⟨h1, h2, h3⟩ := hc
+  simp only [V3.dot] at hd
+  simp only [V3.smul, V3.dot, V3.mk.injEq]
+  refine ⟨?_, ?_, ?_⟩
+  · rw [div_mul_eq_mul_div, eq_div_iff hd]; linear_combination (-dz) * h2 + dy * h3
+  · rw [div_mul_eq_mul_div, eq_div_iff hd]; linear_combination dz * h1 + (-dx) * h3
+  · rw [div_mul_eq_mul_div, eq_div_iff hd]; linear_combination (-dy) * h1 + dx * h2
+
+theorem korthHF_spec (g : Grid) (h : HF) (hk : korthHF g h = true) :
+    (g.perm h.cell).mulVec (V3.smul h.sgn (g.normal h.face)) = V3.smul (tHalf g h) (dvec g h) ∧
+    (dvec g h).dot (dvec g h) ≠ 0 := by
+  simp only [korthHF, Bool.and_eq_true, beq_iff_eq, bne_iff_ne] at hk
+  exact ⟨parallel_eq _ _ hk.1 hk.2, hk.2⟩
+
+theorem bndOK_spec (g : Grid) (hb : bndOK g = true) :
+    g.bndr.Nodup ∧
+    (∀ f ∈ g.bndr, f < g.nf ∧ (hfOf g f).length = 1 ∧ (neuAll g f = true ∨ dirEff g f = true)) ∧
+    (∀ f, f < g.nf → f ∉ g.bndr → (hfOf g f).length = 2 ∧ neuAll g f = false) := by
+  simp only [bndOK, Bool.and_eq_true, decide_eq_true_eq, List.all_eq_true, List.mem_range, beq_iff_eq,
+    Bool.or_eq_true, Bool.not_eq_true'] at hb
+  obtain ⟨⟨h1, h2⟩, h3⟩ := hb
+  refine ⟨h1, fun f hf => ⟨(h2 f hf).1.1, (h2 f hf).1.2, (h2 f hf).2⟩, ?_⟩
+  intro f hf hnb
+  rcases h3 f hf with h | h
+  · exact absurd h hnb
+  · exact h
+
+theorem korthGrid_spec (g : Grid) (K : M3) (hk : korthGrid g K = true) :
+    (∀ h ∈ g.hf, g.perm h.cell = K ∧ korthHF g h = true ∧ tHalf g h ≠ 0) ∧
+    (∀ f, f < g.nf → ∀ h1 h2, hfOf g f = [h1, h2] → tHalf g h1 + tHalf g h2 ≠ 0) := by
+  simp only [korthGrid, Bool.and_eq_true, List.all_eq_true, List.mem_range, beq_iff_eq, bne_iff_ne] at hk
+  refine ⟨fun h hh => ⟨(hk.1 h hh).1.1, (hk.1 h hh).1.2, (hk.1 h hh).2⟩, ?_⟩
+  intro f hf h1 h2 heq
+  have := hk.2 f hf
+  rw [heq] at this
+  simpa using this
+
+theorem bsgn_interior (g : Grid) (hwf : WellFormed g) (hb : bndOK g = true) (f : Nat) (hnb : f ∉ g.bndr) :
+    bsgn g f = 0 := by
+  obtain ⟨_, hbl, hil⟩ := bndOK_spec g hb
+  by_cases hf : f < g.nf
+  · rcases faceOK_cases g f (hwf.1 f hf) with ⟨h, heq, _, _⟩ | ⟨h1, h2, heq, _, _, _, hs⟩
+    · have := (hil f hf hnb).1
+      rw [heq] at this; simp at this
+    · unfold bsgn; rw [heq]; simp only [sgnSum]
+      rcases hs with ⟨e1, e2⟩ | ⟨e1, e2⟩ <;> rw [e1, e2] <;> norm_num
+  · have : hfOf g f = [] := by
+      unfold hfOf
+      apply List.filter_eq_nil_iff.mpr
+      intro h hh
+      have := hwf.2 h hh
+      simp; omega
+    simp [bsgn, this, sgnSum]
+
+theorem dot_self_zero (d : V3) (h0 : d.dot d = 0) : d = ⟨0, 0, 0⟩ := by
+  obtain ⟨x, y, z⟩ := d
+  simp only [V3.dot] at h0
+  have hx : x = 0 := by nlinarith [mul_self_nonneg x, mul_self_nonneg y, mul_self_nonneg z]
+  have hy : y = 0 := by nlinarith [mul_self_nonneg x, mul_self_nonneg y, mul_self_nonneg z]
+  have hz : z = 0 := by nlinarith [mul_self_nonneg x, mul_self_nonneg y, mul_self_nonneg z]
+  rw [hx, hy, hz]
+
+theorem dot_self_pos (d : V3) (h0 : d.dot d ≠ 0) : 0 < d.dot d := by
+  obtain ⟨x, y, z⟩ := d
+  simp only [V3.dot] at h0 ⊢
+  exact lt_of_le_of_ne (by nlinarith [mul_self_nonneg x, mul_self_nonneg y, mul_self_nonneg z]) (Ne.symm h0)
+
+
 /-! ### TPFA vs. the certified 2-D MPFA model of C11 on K-orthogonal grids
 
 Strategy: under `KorthOK` the flux functional of every half-face only sees `g . d` (`nKg_korth`); at a
